@@ -19,3 +19,35 @@ package imageblk
 //@   ghost posted bool = false
 //@   ghostset at "err := d.PostExtents(ctx, vox.StartPoint(), vox.EndPoint())": posted = true
 //@   assert at "i0, i1, err := it.IndexSpan()": posted
+
+// readBlock, 3-D subvolume case (C17: subvolumes of any alignment read back exactly): the part of the
+// stored block that intersects the request is transferred ROW BY ROW: every z plane of the intersection
+// (nz of them) is visited once and contributes exactly ny row copies, and row (dataY, dataZ) of the
+// request is paired with row (blockBegY + dataY - y0, blockBegZ + dataZ - z0) of the block, each side
+// addressed with its own strides. A successful return without these plane visits (e.g. one flat copy
+// across rows, which is contiguous only when the request spans whole block rows AND whole planes) fails.
+//@ func Voxels.readBlock
+//@   prop C17
+//@   safety_off
+//@   modifies *
+//@   ghost rows int64 = 0
+//@   ghost rowsAtZ int64 = 0
+//@   ghost zcount int64 = 0
+//@   ghost ny int64 = 0
+//@   ghost nz int64 = 0
+//@   ghost y0 int64 = 0
+//@   ghost z0 int64 = 0
+//@   ghost vol bool = false
+//@   ghostset at "blockZ := blockBegZ": vol = true
+//@   ghostset at "blockZ := blockBegZ": y0 = int64(dataBeg.Value(1))
+//@   ghostset at "blockZ := blockBegZ": z0 = int64(dataBeg.Value(2))
+//@   ghostset at "blockZ := blockBegZ": ny = int64(dataEnd.Value(1)) - int64(dataBeg.Value(1)) + 1
+//@   ghostset at "blockZ := blockBegZ": nz = int64(dataEnd.Value(2)) - int64(dataBeg.Value(2)) + 1
+//@   ghostset at "blockY := blockBegY": rowsAtZ = rows
+//@   ghostset after "dataI := dataZ*dY + dataY*dX + dataOffset": rows = rows + 1
+//@   ghostset at "blockZ++": zcount = zcount + 1
+//@   assert at "blockY++": blockI == blockZ*bY + blockY*bX + blockOffset && dataI == dataZ*dY + dataY*dX + dataOffset && blockY == blockBegY + (dataY - y0) && blockZ == blockBegZ + (dataZ - z0)
+//@   assert at "blockZ++": ny >= 1 ==> rows == rowsAtZ + ny
+//@   invariant loop 5: vol && blockZ == blockBegZ + (dataZ - z0) && zcount == dataZ - z0 && (nz >= 1 ==> dataZ <= z0 + nz)
+//@   invariant loop 6: vol && blockZ == blockBegZ + (dataZ - z0) && zcount == dataZ - z0 && dataZ < z0 + nz && blockY == blockBegY + (dataY - y0) && dataY >= y0 && (ny >= 1 ==> dataY <= y0 + ny) && rows == rowsAtZ + (dataY - y0)
+//@   assert at "return nil": vol && nz >= 1 ==> zcount == nz
